@@ -25,7 +25,7 @@ impl ProgProperty for C04 {
         }
     }
     fn mix(&self, _tier: Tier) -> Mix {
-        Mix { raw: 30, strukt: 35, div: 10, wide: 3, big: 0, roam: 12, deep: 10, commented: 12 }
+        Mix { raw: 30, strukt: 35, div: 10, wide: 3, big: 0, roam: 12, deep: 10, commented: 12, hibits: 0 }
     }
     fn make_cfgs(&self, sel: &Sel, _p: &str, _i: &[u8], _b: u32, _r: &RefRun) -> Vec<RunCfg> {
         // the level argument is ignored by this back end; pass whatever was drawn
